@@ -26,4 +26,7 @@ BadTriple == IF Failing \in {"TransLt", "TransEq", "Congruent"}
                      \/ (R(t[1], t[2]) = 0 /\ R(t[1], t[3]) # R(t[2], t[3]))
              ELSE <<0, 0, 0>>
 ASSUME PrintT(<<"CMPLAWS", Failing, BadTriple>>)
+\* every law on its own (one broken law must not hide another)
+ASSUME PrintT(<<"CMPALL", [Total |-> Total, Antisym |-> Antisym, Refl |-> Refl, TransLt |-> TransLt, TransEq |-> TransEq,
+                            Congruent |-> Total => Congruent]>>)
 =============================================================================
